@@ -47,6 +47,8 @@ TOKENS = [
     # fields that only become sensitive / comparable once they are normalised, and empty values of the two fields that must agree
     (b"authorization ", b"secret"), (b" Proxy-Authorization", b"s"), (b" cookie", b"sid=1"), (b"cookie", b"  " + b"a" * 17 + b"  "),
     (b"host", b""), (b":authority", b""), (b"Host", b"   "),
+    # extended CONNECT (RFC 8441), and legal names without any cased character
+    (b":method", b"CONNECT"), (b"42", b"v"), (b"_", b"v"),
 ]
 SMALL_TOKENS = [t for i, t in enumerate(TOKENS) if i in (0, 3, 4, 5, 7, 8, 9, 11, 14, 21, 22, 24, 26, 29, 31, 33)]
 BASES = {
@@ -57,8 +59,8 @@ BASES = {
     "trailers": [(b"x-a", b"1"), (b"content-type", b"text/plain")],
 }
 ALPHABET = "tokens: %s; forms: bytes tuples, str tuples, HeaderTuple, NeverIndexedHeaderTuple" % (TOKENS,)
-BOUNDS = {"quick": "edit distance <= 2 over 43 tokens (default configuration) and over 16 tokens (other three configurations); forms on distance <= 1",
-          "thorough": "edit distance <= 2 over 43 tokens in all four configurations; edit distance 3 over 16 tokens in the default configuration"}
+BOUNDS = {"quick": "edit distance <= 2 over 46 tokens (default configuration) and over 16 tokens (other three configurations); forms on distance <= 1",
+          "thorough": "edit distance <= 2 over 46 tokens in all four configurations; edit distance 3 over 16 tokens in the default configuration"}
 CFGS = [(True, True), (True, False), (False, True), (False, False)]   # (normalize, validate)
 
 
